@@ -3,50 +3,64 @@ from translators import tr_c10
 
 PID = "C10"
 CLAIM = True
-MANIFEST_TEXT = ("43 Lean 4 theorems (lean/DuneVerif/Props/C10.lean), for every digit count n (unbounded) and all well-formed "
+MANIFEST_TEXT = ("55 Lean 4 theorems (lean/DuneVerif/Props/C10.lean), for every digit count n (unbounded) and all well-formed "
                  "operands, about the digit-loop model of bigunsignedint that the driver runs against the real class: "
                  "add/incr/sub/mul are exact modulo W=2^(16n) (carry, borrow, double-width temporary and truncation included), "
                  "div/mod by a non-zero divisor return the exact quotient/remainder with the subtraction loop leaving through "
                  "its exit test (fuel-independence), a zero divisor gives MathError in both; and/or/xor equal Nat.land/lor/xor "
                  "of the values, ~a = W-1-a, a<<s = a*2^s mod W for s<w, a>>s = a/2^s; the six comparisons decide the order of "
-                 "the values; construction from uintmax_t is x mod W for every n, the signed constructor rejects negatives; "
-                 "touint is val mod 2^32 for every n>=1 (also one digit); todouble's exact result m*2^e has m<2^53, is <= val and "
-                 "has relative error < 2^-32 for every magnitude; parsing the printed hex gives val back; max = W-1; val is "
-                 "injective on n-digit lists, hence equal values hash equally. The proofs use the masks/width formula "
-                 "regenerated from bigunsignedint.hh on every run (bitmask=2^bits-1, overflowmask odd, compbitmask keeps the upper digit, "
-                 "hexdigits*4=bits, 53/bits digits kept) as obligations, and the model is run against the real class on >=20k "
-                 "boundary-biased cases per run with a GMP oracle deciding the property itself on the real code.")
+                 "the values; construction from uintmax_t is x mod W for every n, every signed built-in type rejects exactly its "
+                 "negatives (construct_spec: all overloads up to 64 bits); all ten mixed operators with a built-in operand are the "
+                 "big operation on y mod W (a multiple of W is a reported zero divisor); touint is val mod 2^32 for every n>=1; "
+                 "todouble's exact result m*2^e has m<2^53, is <= val, exact below 2^48 and has relative error < 2^-32 for every "
+                 "magnitude; parsing the printed hex (also with leading zeros stripped) gives val back; numeric_limits: "
+                 "radix^digits = W, max = radix^digits-1, min = 0, unsigned/exact/bounded/modulo flags; val is injective, hence "
+                 "equal values hash equally; the commutative-ring laws hold as equalities of the returned digit lists; and "
+                 "prog_refines: for ALL histories of compound statements (d op= s with d,s possibly the same variable, mixed, ++, "
+                 "~, shifts, copies) on two variables the model run equals, observation by observation, the machine over natural "
+                 "numbers mod 2^(16n) (induction over the program; a/=a is 1, a%=a is 0). The proofs use the masks/width "
+                 "formula/numeric_limits data regenerated from bigunsignedint.hh on every run as obligations, and the model is "
+                 "run against the real class on >=24k boundary-biased cases per run (single operators, constructor overloads "
+                 "from 11 built-in types, histories of up to 10/24 statements) with a GMP oracle deciding the property itself.")
 MANIFEST_NOTE = ("Trusted: Lean kernel (+propext/Classical.choice/Quot.sound), tr_c10.py, the hand-written model's fidelity "
-                 "(lean/DuneVerif/Model/C10.lean mirrors each operator loop; checked by differential execution only), GMP, "
-                 "g++/ASan/UBSan. todouble is proved for the exact number mantissa*2^exponent the loop computes (mantissa<2^53 is a "
-                 "theorem, so the double operations are exact below 2^1024); the double arithmetic itself, the hash function's "
-                 "value, and O(quotient) division with quotients >400 are covered by the run only or not at all. A behavioural "
-                 "change of todouble that keeps the 2^-32 bound is reported as no-failing-input-found (model is an exact copy).")
-TECHNIQUE = 'Lean 4 proof over digit-list model + translator for constants + differential correspondence with GMP oracle'
+                 "(lean/DuneVerif/Model/C10.lean mirrors each operator loop, Model/C10Prog.lean the statement semantics; checked "
+                 "by differential execution only), GMP, g++/ASan/UBSan. Aliasing (a op= a) is modelled at value level (the "
+                 "argument is read as a value); that the real loops tolerate aliasing is established by the run only. todouble is "
+                 "proved for the exact number mantissa*2^exponent the loop computes (mantissa<2^53 is a theorem, so the double "
+                 "operations are exact below 2^1024; for k>1024 ldexp overflows to inf, not instantiated); the double arithmetic "
+                 "itself, the hash function's value, MPITraits, and O(quotient) division with quotients >400 (single operators) / "
+                 ">2000 (histories: such a statement ends the case with SKIP) are covered by the run only or not at all. A "
+                 "behavioural change of todouble that keeps the 2^-32 bound is reported as no-failing-input-found (model is an "
+                 "exact copy).")
+TECHNIQUE = 'Lean 4 proof over digit-list model (per operator + all histories) + translator for constants/limits + differential correspondence with GMP oracle'
 TRANSLATORS = [tr_c10.translate]
 HARNESS = dict(
     sources=["cxx_c10.cc"],
     repo_sources=["dune/common/exceptions.cc", "dune/common/stdstreams.cc"],
     libs=["-lgmpxx", "-lgmp"],
+    flags=["-O0"],   # ten widths x all operators: 12 s instead of 45 s to compile; the run itself takes < 5 s
 )
-RULE = ("cases: random operator x width k in {8,16,24,32,48,64,100,128,256} x operands whose 16-bit digits are drawn "
+RULE = ("cases: random operator x width k in {8,16,24,32,48,64,65,100,128,256} x operands whose 16-bit digits are drawn "
         "mostly from {0000,0001,7fff,8000,fffe,ffff}; related operand pairs (equal, +-1, one-bit difference, sums at "
-        "the wrap); distinct = distinct op lines; non-trivial = oracle-checked value/comparison (hasheq on unequal "
-        "values is trivial)")
+        "the wrap); constructor calls from i8/i16/i32/i64(long, long long)/u8/u16/u32/u64/bool at the type's limits; "
+        "histories `k prog A B : stmt;...` of 1..10 (thorough 1..24) compound statements on two variables, a quarter of the "
+        "binary statements self-aliased; distinct = distinct op lines; non-trivial = oracle-checked value/comparison "
+        "(hasheq on unequal values is trivial)")
 ASSUMPTIONS = [
-    "the Lean model lean/DuneVerif/Model/C10.lean is hand-written; its fidelity to bigunsignedint.hh rests on this differential run",
-    "constants (bits, masks, digit-count formula) are regenerated from the source by tools/translators/tr_c10.py",
+    "the Lean model lean/DuneVerif/Model/C10.lean + C10Prog.lean is hand-written; its fidelity to bigunsignedint.hh rests on this differential run",
+    "constants (bits, masks, digit-count formula) and the numeric_limits data are regenerated from the source by tools/translators/tr_c10.py",
     "todouble: IEEE double operations are exact on the modelled values (theorem todouble_mantissa_exact: mantissa < 2^53; ldexp exact below 2^1024)",
-    "division/remainder are exercised with quotients <= 400 only (the real algorithm is O(quotient))",
+    "division/remainder are exercised with quotients <= 400 (single operators) / <= 2000 (histories) only (the real algorithm is O(quotient))",
+    "self-aliased compound operators (a op= a) are modelled as the operation on two equal values; a case that does not return within 30 s is killed and reported",
 ]
 TRUSTED = ["g++/libstdc++, ASan/UBSan, GMP as oracle", "translator tr_c10.py", "harness/cxx_c10.cc + Driver/C10.lean parsing/printing"]
 
 
 def batches(tier, seed):
-    n = 20000 if tier == "quick" else 1500000
+    n = 24000 if tier == "quick" else 1500000
     parts = 4 if tier == "quick" else 16
     return [dict(args=["--seed", str(seed * 1000 + i), "--cases", str(n // parts), "--tier", tier], tag="g%d" % i,
-                 timeout=(90 if tier == "quick" else 1500)) for i in range(parts)]
+                 timeout=(120 if tier == "quick" else 1800)) for i in range(parts)]
 
 
 def search_batches(seed):
